@@ -1524,9 +1524,14 @@ void IGXMLScanner::scanDocTypeDecl()
                 unsigned int stringId = fGrammarResolver->getStringPool()->addOrFind(srcUsed->getSystemId());
                 const XMLCh* sysIdStr = fGrammarResolver->getStringPool()->getValueForId(stringId);
 
-                fGrammarResolver->orphanGrammar(XMLUni::fgDTDEntityString);
-                ((XMLDTDDescription*) (fGrammar->getGrammarDescription()))->setSystemId(sysIdStr);
-                fGrammarResolver->putGrammar(fGrammar);
+                //  The key of a grammar can only be changed while nobody holds
+                //  the grammar under the old one. A grammar that cannot be taken
+                //  out (it sits in a locked pool) is left alone.
+                Grammar* held = fGrammarResolver->orphanGrammar(XMLUni::fgDTDEntityString);
+                if (held == fGrammar)
+                    ((XMLDTDDescription*) (fGrammar->getGrammarDescription()))->setSystemId(sysIdStr);
+                if (held)
+                    fGrammarResolver->putGrammar(held);
             }
 
             //  In order to make the processing work consistently, we have to
@@ -3038,15 +3043,10 @@ Grammar* IGXMLScanner::loadDTDGrammar(const InputSource& src,
         }
     }
 
-    fDTDGrammar = (DTDGrammar*) fGrammarResolver->getGrammar(XMLUni::fgDTDEntityString);
-
-    if (fDTDGrammar) {
-        fDTDGrammar->reset();
-    }
-    else {
-        fDTDGrammar = new (fGrammarPoolMemoryManager) DTDGrammar(fGrammarPoolMemoryManager);
-        fGrammarResolver->putGrammar(fDTDGrammar);
-    }
+    //  Load into a grammar of our own (see scanReset): one found under the
+    //  default key may sit in a locked or shared grammar pool.
+    fDTDGrammar = new (fGrammarPoolMemoryManager) DTDGrammar(fGrammarPoolMemoryManager);
+    fGrammarResolver->putGrammar(fDTDGrammar);
 
     fGrammar = fDTDGrammar;
     fGrammarType = fGrammar->getGrammarType();
@@ -3071,9 +3071,14 @@ Grammar* IGXMLScanner::loadDTDGrammar(const InputSource& src,
         unsigned int sysId = fGrammarResolver->getStringPool()->addOrFind(src.getSystemId());
         const XMLCh* sysIdStr = fGrammarResolver->getStringPool()->getValueForId(sysId);
 
-        fGrammarResolver->orphanGrammar(XMLUni::fgDTDEntityString);
-        ((XMLDTDDescription*) (fGrammar->getGrammarDescription()))->setSystemId(sysIdStr);
-        fGrammarResolver->putGrammar(fGrammar);
+        //  The key of a grammar can only be changed while nobody holds
+        //  the grammar under the old one. A grammar that cannot be taken
+        //  out (it sits in a locked pool) is left alone.
+        Grammar* held = fGrammarResolver->orphanGrammar(XMLUni::fgDTDEntityString);
+        if (held == fGrammar)
+            ((XMLDTDDescription*) (fGrammar->getGrammarDescription()))->setSystemId(sysIdStr);
+        if (held)
+            fGrammarResolver->putGrammar(held);
     }
 
     //  Handle the creation of the XML reader object for this input source.
